@@ -14,7 +14,9 @@ Model of `scylla/src/routing/partitioner.rs` (C03) and of `Token::new` (`routing
 * `murmur3Spec`   — Cassandra's `MurmurHash.hash3_x64_128(key, 0, length, seed = 0)[0]` in its one-shot form (block loop
                     over `length >> 4` blocks, `switch (length & 15)` tail with signed bytes, final mix), followed by the
                     server's token normalisation `Long.MIN_VALUE ↦ Long.MAX_VALUE`
-* `Cdc*`          ← `CDCPartitionerHasher` (316-381)
+* `Cdc*`          ← `CDCPartitionerHasher` (316-381); `cdcRust` = what it computes, `cdcSpec` = the server's rule
+* `Java.*`        — Cassandra's Java source transliterated statement by statement (independent definitions)
+* `partitionerFromStr` ← `PartitionerName::from_str` (36-46)
 -/
 namespace ScyllaVerif.Murmur3
 
@@ -332,9 +334,47 @@ def cdcFinish : CdcState → Int64
   | .feeding _ _ => tokenInvalid
   | .computed t => t
 
-/-- ScyllaDB's CDC partitioner: the first 8 bytes of the key as a big-endian `int64` (normalised); the minimum
-token (`i64::MIN`) when the key is shorter than 8 bytes. -/
-def cdcSpec (bs : List UInt8) : Int64 :=
+/-- What the driver's CDC hasher computes, as a function of all the bytes written: the first 8 bytes as a
+big-endian `i64` (normalised); `Token::INVALID` (`i64::MIN`) when fewer than 8 bytes were written. -/
+def cdcRust (bs : List UInt8) : Int64 :=
   if bs.length < 8 then tokenInvalid else tokenNew (be64 bs).toInt64
+
+/-- The server's rule — ScyllaDB `cdc/cdc_partitioner.cc`, `cdc_partitioner::get_token`:
+```cpp
+if (key.size() != 2 * sizeof(int64_t)) return dht::minimum_token();        // key must be exactly 16 bytes
+return dht::token(stream_id::token_from_bytes(key));                       // first 8 bytes, big-endian int64
+```
+(`dht::token`'s constructor normalises `INT64_MIN` to `INT64_MAX`; `minimum_token` reads as `i64::MIN`.)
+CDC log tables have the single partition-key column `cdc$stream_id`, always a 16-byte blob. -/
+def cdcSpec (bs : List UInt8) : Int64 :=
+  if bs.length = 16 then tokenNew (be64 bs).toInt64 else Int64.minValue
+
+/-! ### partitioner selection by name -/
+
+inductive PartitionerName where
+  | murmur3
+  | cdc
+  deriving Repr, DecidableEq
+
+/-- The UTF-8 bytes of `"Murmur3Partitioner"`. -/
+def murmur3Suffix : List UInt8 :=
+  [0x4d, 0x75, 0x72, 0x6d, 0x75, 0x72, 0x33, 0x50, 0x61, 0x72, 0x74, 0x69, 0x74, 0x69, 0x6f, 0x6e, 0x65, 0x72]
+/-- The UTF-8 bytes of `"CDCPartitioner"`. -/
+def cdcSuffix : List UInt8 :=
+  [0x43, 0x44, 0x43, 0x50, 0x61, 0x72, 0x74, 0x69, 0x74, 0x69, 0x6f, 0x6e, 0x65, 0x72]
+
+/-- `PartitionerName::from_str` (`partitioner.rs:36-46`) on the UTF-8 bytes of the name: `str::ends_with` is a byte
+suffix test; Murmur3 is tested first. -/
+def partitionerFromStr (name : List UInt8) : Option PartitionerName :=
+  if murmur3Suffix.isSuffixOf name then some .murmur3
+  else if cdcSuffix.isSuffixOf name then some .cdc
+  else none
+
+/-- `name.and_then(PartitionerName::from_str).unwrap_or_default()` (`session.rs:1708-1712`, `cluster/state.rs:479-483`):
+no name or an unknown name selects the default, Murmur3. -/
+def selectPartitioner (name : Option (List UInt8)) : PartitionerName :=
+  match name with
+  | none => .murmur3
+  | some s => (partitionerFromStr s).getD .murmur3
 
 end ScyllaVerif.Murmur3
